@@ -17,4 +17,27 @@ for d, _, files in os.walk(src):
         rep[target] = os.path.join(d, f)
 if len(sys.argv) > 2 and sys.argv[2]:
     rep.update(json.load(open(sys.argv[2])).get("Replace", {}))
+# VERIF_SHIM_FILES=<list file> VERIF_SHIM_DIR=<dir>: the listed repository files (relative to /repo/go)
+# are copied with their `"sync"` import redirected to the scheduler-aware shim
+# (harness/overlay/verifshim/sync).  The copy is made from whatever the build would otherwise
+# use (the working tree, or the replacement a seeded change supplies), line numbers unchanged.
+shim = os.environ.get("VERIF_SHIM_FILES", "")
+if shim:
+    import re
+    outdir = os.environ["VERIF_SHIM_DIR"]
+    os.makedirs(outdir, exist_ok=True)
+    for n, line in enumerate(open(shim)):
+        rel = line.strip()
+        if not rel or rel.startswith("#"):
+            continue
+        target = os.path.join("/repo/go", rel)
+        srcf = rep.get(target, target)
+        text = open(srcf).read()
+        new, k = re.subn(r'(?m)^(\s*)"sync"\s*$', r'\1sync "github.com/oasisprotocol/oasis-core/go/verifshim/sync"', text)
+        if k != 1:
+            sys.stderr.write("shim: %s does not import \"sync\" exactly once (%d)\n" % (srcf, k))
+            sys.exit(2)
+        dst = os.path.join(outdir, "%d_%s" % (n, os.path.basename(rel)))
+        open(dst, "w").write(new)
+        rep[target] = dst
 json.dump({"Replace": rep}, sys.stdout, indent=1)
